@@ -1,3 +1,4 @@
+import DcmVerif.Props.Source
 import DcmVerif.Proofs.Chains
 import DcmVerif.Proofs.Produced
 import DcmVerif.Proofs.Ext
